@@ -1,0 +1,79 @@
+//go:build verif
+// +build verif
+
+// Package verifhook holds verification hooks (live: built with -tags verif).
+package verifhook
+
+import (
+	"runtime"
+	"sync/atomic"
+	"time"
+)
+
+// Sites of Yield calls.
+const (
+	SiteStreamRead = iota + 1
+	SiteStreamReadCopy
+	SiteStreamWrite
+	SiteStreamWriteAppend
+	SiteStreamReadAll
+	SiteStreamGetDataType
+	SiteExecuteProcess
+	SiteBeforeWaitForTermination
+	SiteDeregister
+	SiteScheduler
+)
+
+var (
+	seed    atomic.Uint64
+	counter atomic.Uint64
+	fidCB   atomic.Pointer[func(uint32)]
+	// Yields counts perturbations actually applied.
+	Yields atomic.Uint64
+)
+
+// SetSeed enables (seed != 0) or disables (0) scheduling perturbation.
+func SetSeed(s uint64) { seed.Store(s) }
+
+// SetFidCallback installs the observer of newly issued FIDs (nil to remove).
+func SetFidCallback(f func(uint32)) {
+	if f == nil {
+		fidCB.Store(nil)
+		return
+	}
+	fidCB.Store(&f)
+}
+
+func mix(x uint64) uint64 {
+	x += 0x9e3779b97f4a7c15
+	x = (x ^ (x >> 30)) * 0xbf58476d1ce4e5b9
+	x = (x ^ (x >> 27)) * 0x94d049bb133111eb
+	return x ^ (x >> 31)
+}
+
+// Yield is a scheduling perturbation point: depending on the seed, the site
+// and a global counter it does nothing, yields the processor or sleeps for a
+// few microseconds.
+func Yield(site int) {
+	s := seed.Load()
+	if s == 0 {
+		return
+	}
+	n := counter.Add(1)
+	h := mix(s ^ mix(uint64(site)<<32^n))
+	switch h & 7 {
+	case 0, 1:
+		Yields.Add(1)
+		runtime.Gosched()
+	case 2:
+		Yields.Add(1)
+		time.Sleep(time.Duration(1+(h>>8)%50) * time.Microsecond)
+	}
+}
+
+// FidRegistered reports a newly issued function ID.
+func FidRegistered(fid uint32) {
+	if f := fidCB.Load(); f != nil {
+		(*f)(fid)
+	}
+}
